@@ -72,7 +72,10 @@ func MmapStor(filename string, mode Mode) (*Stor, error) {
 	if mode == Read {
 		remainder := size % mmapChunkSize
 		if remainder > 0 {
-			chunks[last] = chunks[last][:remainder] // last chunk not full
+			// last chunk not full
+			// limit the capacity as well as the length, so that slicing past
+			// the end of the file panics instead of getting a bus error
+			chunks[last] = chunks[last][:remainder:remainder]
 		}
 	}
 	// ignore trailing zero bytes (from memory mapping, if truncate failed)
